@@ -487,7 +487,13 @@ def writes_off(ctx, spec, workdir):
             return call
 
     Table.write = W()
+    # the simulation runs in a fresh, empty working directory of its own: anything that appears there was written by it
+    cwd_dir = os.path.join(workdir, "off-cwd")
+    shutil.rmtree(cwd_dir, ignore_errors=True)
+    os.makedirs(cwd_dir)
+    old_cwd = os.getcwd()
     try:
+        os.chdir(cwd_dir)
         cwd_before = set(os.listdir("."))
         failed = None
         try:
@@ -497,6 +503,7 @@ def writes_off(ctx, spec, workdir):
             failed = e
         cwd_after = set(os.listdir("."))
     finally:
+        os.chdir(old_cwd)
         Table.write = orig
     ctx.case(("writes-off", key), {"op": "compute(write_stages=False)", "config": key, "write_calls": len(calls), "files": os.listdir(d)})
     ctx.count("writes_off")
@@ -533,6 +540,10 @@ def run(ctx: Ctx):
     import nuspacesim  # noqa: F401
     rng = ctx.rng
     work = tempfile.mkdtemp(prefix="c17-")
+    # every simulation of this check runs with a scratch working directory (a simulation that drops files next to itself must
+    # not litter /verif; the writes-off probe uses an empty directory of its own)
+    os.makedirs(os.path.join(work, "cwd"))
+    os.chdir(os.path.join(work, "cwd"))
     model_selftests(ctx)
     specs = [
         {"mode": "Diffuse", "optical": True, "radio": True, "spectrum": "mono"},
@@ -567,6 +578,7 @@ def run(ctx: Ctx):
         if i in (0, 3) or ctx.thorough:
             writes_off(ctx, spec, wd)
     zero_survivor_runs(ctx, work)
+    os.chdir(str(VERIF))
     shutil.rmtree(work, ignore_errors=True)
 
 
